@@ -30,12 +30,13 @@ const (
 )
 
 type prodT struct {
-	T      *claimT
-	Fields []*fieldT       // varying fields, index 0 least significant
-	Toks   [][]interface{} // token alphabet per varying field; Toks[i][0] is the default
-	Size   int
-	Blind  []string // fields held at default because the key does not react to them
-	Free   []string // free-form string fields (full token alphabet)
+	T        *claimT
+	Fields   []*fieldT       // varying fields, index 0 least significant
+	Toks     [][]interface{} // token alphabet per varying field; Toks[i][0] is the default
+	Size     int
+	Blind    []string // fields held at default because the key does not react to them
+	Free     []string // free-form string fields (full token alphabet)
+	External []string // fields that enter the key outside ClaimHash (store prefix)
 }
 
 type validator interface{ ValidateBasic() error }
@@ -56,14 +57,21 @@ func dedupe(in []interface{}) []interface{} {
 func (e *env) product(t *claimT, thorough bool) *prodT {
 	p := &prodT{T: t, Size: 1}
 	v0 := e.w.Vals[0]
-	defKey := string(attKey(e.build(t, nil, v0)))
+	def := e.build(t, nil, v0)
+	defKey := string(attKey(def))
+	defHash, _ := def.(skywaytypes.EthereumClaim).ClaimHash()
 	for i := range t.Fields {
 		f := &t.Fields[i]
-		blind := true
+		// blind: the key does not react to the field; external: the key reacts
+		// but ClaimHash does not (the field enters the key as store prefix)
+		blind, external := true, len(f.Dom) > 1
 		for _, x := range f.Dom[1:] {
-			if string(attKey(e.build(t, map[string]interface{}{f.Name: x}, v0))) != defKey {
+			m := e.build(t, map[string]interface{}{f.Name: x}, v0)
+			if string(attKey(m)) != defKey {
 				blind = false
-				break
+			}
+			if h, _ := m.(skywaytypes.EthereumClaim).ClaimHash(); string(h) != string(defHash) {
+				external = false
 			}
 		}
 		if blind {
@@ -83,6 +91,16 @@ func (e *env) product(t *claimT, thorough bool) *prodT {
 				toks = []interface{}{v, v2, "", "a/b", "..", "../" + v, "./" + v, v + "/..", "%2F", "a%2Fb", mixedCase(v)}
 				if thorough {
 					toks = append(toks, strings.ToUpper(v), "../"+v2, v+"/", "/"+v, "a/../"+v)
+				}
+				if external {
+					// spellings that a padded / fixed-width / truncated / case-folded
+					// store prefix would merge
+					pad := ""
+					if len(v) < 32 {
+						pad = strings.Repeat("x", 32-len(v))
+					}
+					toks = append(toks, v+"\x00", v+"\x00\x00\x00", v+pad+"a", v+pad+"b", strings.ToUpper(v))
+					p.External = append(p.External, f.Name)
 				}
 			} else {
 				toks = []interface{}{v, second}
@@ -155,7 +173,7 @@ func (e *env) eachKey(p *prodT, fn func(idx int, key []byte)) {
 	for idx := 0; idx < p.Size; idx++ {
 		h, err := claim.ClaimHash()
 		must(err)
-		fn(idx, append([]byte(claim.GetChainReferenceId()), skywaytypes.GetAttestationKey(claim.GetSkywayNonce(), h)...))
+		fn(idx, append(append([]byte{}, chainPrefix(claim.GetChainReferenceId())...), skywaytypes.GetAttestationKey(claim.GetSkywayNonce(), h)...))
 		// odometer
 		for i := range d {
 			d[i]++
@@ -324,7 +342,7 @@ func (e *env) collisionSearch(shard, nshards int, deadline time.Time, want strin
 				ms = ms[:membersPerGroup]
 			}
 			evaluated++
-			n := len(e.w.Vals)
+			n := len(e.voters)
 			for bi := range e.bases {
 				outs := make([]outcome, len(ms))
 				for i, m := range ms {
